@@ -87,6 +87,28 @@ func (c *Ctx) addEdgeSummary() (int64, bool) {
 		return 0, false
 	}
 	calls := core.Calls(f, core.GAddEdgeW)
+	if len(calls) == 0 {
+		// not a wrapper: AddEdge writes the adjacency maps itself (possibly through a private helper) — the weight is
+		// the one constant it stores into the inner maps, keyed by its own two vertices (rule MIRROR-KEY checks the keys)
+		gf, err := c.graphFieldRoles()
+		if err != nil {
+			return 0, false
+		}
+		var w int64
+		n := 0
+		for _, m := range c.mapMuts(gf, f) {
+			if m.ref.level != "inner" || m.del {
+				continue
+			}
+			k, ok := core.ConstInt(m.val)
+			if !ok || (n > 0 && k != w) {
+				return 0, false
+			}
+			w = k
+			n++
+		}
+		return w, n == 2
+	}
 	if len(calls) != 1 {
 		return 0, false
 	}
